@@ -47,39 +47,6 @@ structure Feasible (inst : Instance) (s : State) : Prop where
     o₁.machine = o₂.machine → o₁.st ≠ .idle → o₂.st ≠ .idle → (o₁.job, o₁.idx) ≠ (o₂.job, o₂.idx) →
     Disjoint2 o₁ o₂
 
-/-- in a well-ordered job at most one record is running -/
-theorem OpsOK_one_processing {now : Int} : ∀ (l : List OpState) (prev : Option Int), OpsOK now prev l →
-    ∀ o₁ ∈ l, ∀ o₂ ∈ l, o₁.st = .processing → o₂.st = .processing → o₁ = o₂
-  | [], _, _, _, h, _, _, _, _ => by cases h
-  | x :: xs, prev, h, o₁, h₁, o₂, h₂, p₁, p₂ => by
-    cases hst : x.st with
-    | done =>
-      simp only [OpsOK, hst] at h
-      obtain ⟨_, c, _, _, _, _, _, h6⟩ := h
-      have e1 : o₁ ∈ xs := by
-        rcases List.mem_cons.mp h₁ with rfl | h; · rw [hst] at p₁; cases p₁
-        exact h
-      have e2 : o₂ ∈ xs := by
-        rcases List.mem_cons.mp h₂ with rfl | h; · rw [hst] at p₂; cases p₂
-        exact h
-      exact OpsOK_one_processing xs (some c) h6 o₁ e1 o₂ e2 p₁ p₂
-    | processing =>
-      simp only [OpsOK, hst] at h
-      obtain ⟨_, _, _, _, _, _, _, _, hi⟩ := h
-      have e1 : o₁ = x := by
-        rcases List.mem_cons.mp h₁ with rfl | h; · rfl
-        exact absurd (hi o₁ h) (by rw [p₁]; simp)
-      have e2 : o₂ = x := by
-        rcases List.mem_cons.mp h₂ with rfl | h; · rfl
-        exact absurd (hi o₂ h) (by rw [p₂]; simp)
-      rw [e1, e2]
-    | idle =>
-      simp only [OpsOK, hst] at h
-      rcases List.mem_cons.mp h₁ with rfl | h'
-      · rw [hst] at p₁; cases p₁
-      · exact absurd (h o₁ h') (by rw [p₁]; simp)
-    | transport => simp [OpsOK, hst] at h
-
 theorem feasible_of_inv (w : WF inst) {s : State} (hI : StructInv inst s) (hS : SchedInv s) : Feasible inst s where
   specified := hI.shape.jobs
   inOrder j hj := (hS.ops j hj).ordered
